@@ -50,7 +50,22 @@ Inductive ccase :=
 | FinishOrder (db_first : bool)
 (* one lifetime of the append/scheme store stack: the head it started from, the beacons offered to
    Put, and the rounds of those it stored *)
-| Attempts (chained : bool) (last : beacon) (bs : list beacon) (stored : list Z).
+| Attempts (chained : bool) (last : beacon) (bs : list beacon) (stored : list Z)
+(* the same lifetime seen from outside the callback store: committed writes and hand-overs to the
+   registered callback, in the order they happened (round, signature id) *)
+| CbTrace (chained : bool) (last : beacon) (bs : list beacon) (obs : list cbev).
+
+Definition cbev_eqb (a b : cbev) : bool :=
+  match a, b with
+  | CWrite x, CWrite y | CServe x, CServe y => (b_round x =? b_round y) && (b_sig x =? b_sig y)
+  | _, _ => false
+  end.
+Fixpoint cbevs_eqb (a b : list cbev) : bool :=
+  match a, b with
+  | [], [] => true
+  | x :: a', y :: b' => cbev_eqb x y && cbevs_eqb a' b'
+  | _, _ => false
+  end.
 
 Definition ok (c : ccase) : bool :=
   match c with
@@ -66,6 +81,8 @@ Definition ok (c : ccase) : bool :=
   | Attempts chained last bs stored =>
       zlist_eqb (flat_map (fun o => match o with PBeaconTx b => [b_round b] | _ => [] end)
                           (attempt_ops chained last bs)) stored
+  | CbTrace chained last bs obs =>
+      cbevs_eqb (cb_attempts (sh_cb_write_first crash_shape) chained last bs) obs
   end.
 
 Definition mismatches (cs : list ccase) : list Z := mism_from ok 0 cs.
